@@ -3,12 +3,17 @@ package verifh
 // C02 — depth and width limits fail closed and can only be lowered per request.
 
 import (
+	"context"
+	"encoding/json"
 	"fmt"
 	"math/rand/v2"
+	"net/http"
 	"sort"
 	"strings"
 	"testing"
 	"time"
+
+	rts "github.com/ory/keto/proto/ory/keto/relation_tuples/v1alpha2"
 )
 
 // genLimitCase: C01's generator plus shapes whose size straddles the limits.
@@ -287,6 +292,51 @@ func runC02Case(run *runner, idx int64, cc *checkCase, gs, ws []int) string {
 			}
 		}
 	}
+	// the same clamp through the transports: REST max-depth and gRPC max_depth,
+	// single and batch, against the engine at the same (g, w, r)
+	read := env.Reg.ReadRouter(env.Ctx)
+	grpcC, gerr := newGRPC(env)
+	if gerr == nil {
+		defer grpcC.Close()
+		w := ws[len(ws)-1]
+		for _, g := range gs {
+			for _, rd := range []int{g + 1, 1000, g - 1, -3} {
+				for qi, q := range cc.queries {
+					engineSide := func() string { return runAt(g, w, rd, qi).kindOnly() }
+					want := engineSide()
+					for _, tr := range c02Transports {
+						got := tr.do(env, read, grpcC, q, rd)
+						run.eval(1)
+						run.count("transport_runs:"+tr.name, 1)
+						if got == want || got == "skip" {
+							continue
+						}
+						setT := map[string]int{got: 1}
+						setE := map[string]int{want: 1}
+						for k := 0; k < 8; k++ {
+							setT[tr.do(env, read, grpcC, q, rd)]++
+							setE[engineSide()]++
+						}
+						disjoint := true
+						for k := range setT {
+							if setE[k] > 0 {
+								disjoint = false
+							}
+						}
+						if !disjoint {
+							run.count("nondeterministic_under_binding_limit", 1)
+							continue
+						}
+						run.violate(violation{Index: idx, Sub: fmt.Sprintf("%s/q%d/g%d/w%d/r%d/%s", modeName, qi, g, w, rd, tr.name),
+							Sig:     fmt.Sprintf("C02:transport-depth-differs:%s:%s-vs-engine-%s", tr.name, got, want),
+							Summary: fmt.Sprintf("check %s with max-depth %d under global %d: %s answers %v, the engine with the same request depth answers %v", q, rd, g, tr.name, setT, setE),
+							Case:    cc, Detail: map[string]any{"g": g, "w": w, "r": rd, "query": q.String(), "transport": tr.name}})
+						verdict = "violation"
+					}
+				}
+			}
+		}
+	}
 	run.sample(map[string]any{"variant": cc.Variant, "config": cc.Cfg, "tuples": cc.Tuples, "queries": cc.Queries, "grid": map[string]any{"g": gs, "w": ws}})
 	return verdict
 }
@@ -372,4 +422,85 @@ func checkFailClosed(run *runner, idx int64, cc *checkCase, cfg *Cfg, strict boo
 		Summary: fmt.Sprintf("check %s allowed under limits (global depth %d, width %d, request depth %d) but denied by the unbounded semantics; %d cut events", q, g, w, rd, d.Cuts),
 		Case:    cc, Detail: map[string]any{"g": g, "w": w, "r": rd, "query": q.String(), "shrunk_tuples": tupStrings(sts)}})
 	*verdict = "violation"
+}
+
+
+type c02Transport struct {
+	name string
+	do   func(env *Env, read http.Handler, g *grpcClients, q *Tup, depth int) string
+}
+
+func decisionOfStatus(st int, body string) string {
+	if st != 200 {
+		if st == 403 {
+			return "denied"
+		}
+		return "error"
+	}
+	var r struct {
+		Allowed bool `json:"allowed"`
+	}
+	if json.Unmarshal([]byte(body), &r) != nil {
+		return "error"
+	}
+	if r.Allowed {
+		return "allowed"
+	}
+	return "denied"
+}
+
+var c02Transports = []c02Transport{
+	{"rest-get", func(env *Env, read http.Handler, g *grpcClients, q *Tup, depth int) string {
+		v := q.ToURLQuery()
+		v.Set("max-depth", fmt.Sprint(depth))
+		st, body, pt := httpDoCtx(env.Ctx, 20*time.Second, read, "GET", "/relation-tuples/check/openapi?"+v.Encode(), "", nil)
+		if pt != "" {
+			return "error"
+		}
+		return decisionOfStatus(st, body)
+	}},
+	{"rest-batch", func(env *Env, read http.Handler, g *grpcClients, q *Tup, depth int) string {
+		b, _ := json.Marshal(map[string]any{"tuples": []*Tup{q}})
+		st, body, pt := httpDoCtx(env.Ctx, 20*time.Second, read, "POST", fmt.Sprintf("/relation-tuples/batch/check?max-depth=%d", depth), string(b), nil)
+		if pt != "" || st != 200 {
+			return "error"
+		}
+		var r struct {
+			Results []struct {
+				Allowed bool   `json:"allowed"`
+				Error   string `json:"error"`
+			} `json:"results"`
+		}
+		if json.Unmarshal([]byte(body), &r) != nil || len(r.Results) != 1 || r.Results[0].Error != "" {
+			return "error"
+		}
+		if r.Results[0].Allowed {
+			return "allowed"
+		}
+		return "denied"
+	}},
+	{"grpc-check", func(env *Env, read http.Handler, g *grpcClients, q *Tup, depth int) string {
+		ctx, cancel := context.WithTimeout(env.Ctx, 20*time.Second)
+		defer cancel()
+		resp, err := g.Check.Check(ctx, &rts.CheckRequest{Tuple: q.ToProto(), MaxDepth: int32(depth)})
+		if err != nil {
+			return "error"
+		}
+		if resp.Allowed {
+			return "allowed"
+		}
+		return "denied"
+	}},
+	{"grpc-batch", func(env *Env, read http.Handler, g *grpcClients, q *Tup, depth int) string {
+		ctx, cancel := context.WithTimeout(env.Ctx, 20*time.Second)
+		defer cancel()
+		resp, err := g.Check.BatchCheck(ctx, &rts.BatchCheckRequest{Tuples: []*rts.RelationTuple{q.ToProto()}, MaxDepth: int32(depth)})
+		if err != nil || len(resp.Results) != 1 || resp.Results[0].Error != "" {
+			return "error"
+		}
+		if resp.Results[0].Allowed {
+			return "allowed"
+		}
+		return "denied"
+	}},
 }
